@@ -68,6 +68,11 @@ func runSolver(sp solverSpec, file string, timeoutMs int) solveResult {
 	return solveResult{verdict, sp.name, ms, text}
 }
 
+// secondPass is set once the first pass over all obligations is over: the
+// long retries do not reseed (three more 80 s runs per undecided obligation
+// would only delay the report of a real failure).
+var secondPass bool
+
 // discharge decides one obligation. Stage 1: z3-new alone; stage 2: the
 // other two solvers in parallel. `unsat` from any solver discharges.
 func discharge(ob *Obligation, query string, dir string, timeoutMs int, all bool) {
@@ -120,7 +125,7 @@ func discharge(ob *Obligation, query string, dir string, timeoutMs int, all bool
 	// `unknown` on a quantified goal depends on the instantiation order: two
 	// more attempts with other random seeds before the other solvers are asked
 	// (an obligation still counts only on `unsat`)
-	for seed := 1; seed <= 2 && r.verdict == "unknown"; seed++ {
+	for seed := 1; seed <= 2 && r.verdict == "unknown" && !secondPass; seed++ {
 		sd := seed
 		reseeded := solverSpec{fmt.Sprintf("z3-5.1.0/seed%d", sd), func(f string, ms int) []string {
 			return []string{"z3-new", fmt.Sprintf("-t:%d", ms), fmt.Sprintf("smt.random_seed=%d", sd), f}
@@ -280,6 +285,7 @@ func dischargeAll(results []*FuncResult, dir string, timeoutMs int, all bool, wo
 		budget = 4 * time.Minute
 	}
 	deadline := time.Now().Add(budget)
+	secondPass = true
 	w2 := workers / 2
 	if w2 < 1 {
 		w2 = 1
